@@ -195,12 +195,15 @@ func run(e *hx.Env, c qcase) {
 					continue
 				}
 				// which executor ran
-				ex := s.Exec("explain " + q)
+				ex := s.Exec("explain plan " + q)
 				if ex.Err != nil && len(e.Rep.Notes) < 2 {
 					e.Rep.Note("explain failed: " + qx.Short(ex.Err.Error(), 200))
 				}
 				if ex.Err == nil {
 					plan := qx.JoinRows(ex.Rows)
+					if len(e.Rep.Notes) < 1 {
+						e.Rep.Note("first explain: " + qx.Short(plan, 300))
+					}
 					for _, k := range []string{"IndexedTableAccess", "LookupJoin", "MergeJoin", "HashJoin", "Table(", "InnerJoin", "LeftOuter", "static: [{", "SemiJoin", "AntiJoin", "TopN"} {
 						if strings.Contains(plan, k) {
 							e.Rep.Hit(fmt.Sprintf("plan[idx=%v]:%s", pass == 1, k))
